@@ -186,6 +186,30 @@ func safetyFamily(tier string, amevs []int64) []*Job {
 	// amnesia restarts
 	jobs = append(jobs, job(scen("B8-amnesia2-N4-amev-off", 4, withKind(2, kAmnesia), withK(2)), per))
 	if tier == "thorough" {
+		// unbounded: every interleaving of deliveries, N=4 fault-free, one height (state-deduplicated)
+		all := scen("U1-N4-all-delivery-orders", 4, withMode("all"))
+		all.Dev = Dev{Reorder: true}
+		jobs = append(jobs, job(all, per))
+		allA := scen("U1-N4-all-delivery-orders-amev-on", 4, withMode("all"), withAMEV(0))
+		allA.Dev = Dev{Reorder: true}
+		jobs = append(jobs, job(allA, per))
+		// unbounded at two focus nodes around the equivocating-primary base (others process eagerly), timers may fire early
+		b := primaryAt(start+1, 0, 4)
+		var hon []int
+		for i := 0; i < 4; i++ {
+			if i != b {
+				hon = append(hon, i)
+			}
+		}
+		for i := 0; i < len(hon); i++ {
+			for j := i + 1; j < len(hon); j++ {
+				sc := scen(fmt.Sprintf("U2-N4-focus-%d-%d-equivocating-primary%d", hon[i], hon[j], b), 4, withKind(b, kByz), withMode("focus", hon[i], hon[j]))
+				sc.Dev = Dev{Reorder: true, Premature: true} // the equivocation is scripted; no further menu items
+				sc.MaxView = 1
+				sc.ByzScript = []ByzStep{{"proposal A", 0, 1 << hon[0]}, {"proposal B", 0, 1<<hon[1] | 1<<hon[2]}, {"commit for proposal A", 0, 1<<hon[0] | 1<<hon[1] | 1<<hon[2]}, {"commit for proposal B", 0, 1<<hon[0] | 1<<hon[1] | 1<<hon[2]}}
+				jobs = append(jobs, job(sc, per))
+			}
+		}
 		jobs = append(jobs, job(scen("B8-amnesia1-N4-amev-on", 4, withAMEV(0), withKind(1, kAmnesia), withK(2)), per))
 		jobs = append(jobs, job(scen("B0-two-heights-N4-amev-off", 4, withHeights(2), withK(3)), per))
 	}
